@@ -17,6 +17,9 @@ if args and args[0] == '--round2':
 elif args and args[0] == '--round3':
     base, letters = '/tmp/mut3', ('e', 'f', 'g')
     args = args[1:]
+if args and args[0] == '--round4':
+    base, letters = '/tmp/mut4', ('h', 'i')
+    args = args[1:]
 for pid in args:
     for x in letters:
         src = f'{base}/{pid}/_out/{x}'
